@@ -7,6 +7,7 @@ import (
 	"bytes"
 	"fmt"
 	"io"
+	"slices"
 	gosync "sync"
 
 	"github.com/go-git/go-git/v6/plumbing"
@@ -29,6 +30,9 @@ type ondemandObject struct {
 	scanner     *PackScanner
 	diskType    plumbing.ObjectType // The type stored on disk (may be delta)
 	autoResolve bool
+	// chain holds the pack offsets of the delta objects whose bases were
+	// followed to reach this object; nil for an object requested directly.
+	chain []int64
 
 	m gosync.RWMutex
 }
@@ -43,6 +47,20 @@ func newOndemandObject(
 	scanner *PackScanner,
 	autoResolve bool,
 ) *ondemandObject {
+	return newChainedOndemandObject(hash, typ, offset, size, scanner, autoResolve, nil)
+}
+
+// newChainedOndemandObject is newOndemandObject for the base of a delta;
+// chain holds the pack offsets of the delta objects that led to it.
+func newChainedOndemandObject(
+	hash plumbing.Hash,
+	typ plumbing.ObjectType,
+	offset int64,
+	size int64,
+	scanner *PackScanner,
+	autoResolve bool,
+	chain []int64,
+) *ondemandObject {
 	obj := &ondemandObject{
 		hash:        hash,
 		offset:      offset,
@@ -51,6 +69,7 @@ func newOndemandObject(
 		diskType:    typ,
 		scanner:     scanner,
 		autoResolve: autoResolve,
+		chain:       chain,
 	}
 
 	// If this is a delta object and autoResolve is enabled,
@@ -188,7 +207,7 @@ func (o *ondemandObject) resolveMetadata() error {
 		consumed := len(o.scanner.packMmap[pos:]) - reader.Len()
 		pos += int64(consumed)
 
-		base, err = o.scanner.GetByOffset(baseOffset)
+		base, err = o.scanner.getBaseByOffset(baseOffset, o.baseChain())
 	} else {
 		hashSize := o.scanner.hashSize
 		end := pos + int64(hashSize)
@@ -198,7 +217,7 @@ func (o *ondemandObject) resolveMetadata() error {
 		baseHash, _ := plumbing.FromBytes(o.scanner.packMmap[pos:end])
 		pos = end
 
-		base, err = o.scanner.Get(baseHash)
+		base, err = o.scanner.getBase(baseHash, o.baseChain())
 	}
 	if err != nil {
 		return fmt.Errorf("failed to get base object: %w", err)
@@ -237,6 +256,12 @@ func (o *ondemandObject) resolveMetadata() error {
 	o.size = int64(targetSize)
 
 	return nil
+}
+
+// baseChain returns the chain to hand to the lookup of this delta's base: the
+// chain that led here plus this object (copied, siblings may share o.chain).
+func (o *ondemandObject) baseChain() []int64 {
+	return append(slices.Clip(o.chain), o.offset)
 }
 
 // toDataOffset gets the object offset and returns the data offset.
@@ -287,9 +312,9 @@ func (o *ondemandObject) resolveDelta() (io.ReadCloser, error) {
 	// of their content from.
 	var base plumbing.EncodedObject
 	if o.diskType == plumbing.OFSDeltaObject {
-		base, err = o.scanner.GetByOffset(baseOffset)
+		base, err = o.scanner.getBaseByOffset(baseOffset, o.baseChain())
 	} else {
-		base, err = o.scanner.Get(baseHash)
+		base, err = o.scanner.getBase(baseHash, o.baseChain())
 	}
 	if err != nil {
 		return nil, fmt.Errorf("failed to get base object: %w", err)
